@@ -128,9 +128,6 @@ def _replay(model, rec):
 # --------------------------------------------------------------------------
 from txvc.contracts import Loop, Schema  # noqa: E402
 
-Schema("GeneratorDesc", fields={"custom_args": "list[obj:GeneratorParam]|none", "generator": "any",
-                                "language": "any", "target": "any"})
-Schema("GeneratorParam", fields={"name": "str", "mandatory": "bool"})
 
 GEN = "evn('generator_description', 0).result"
 GARGS = f"as_list({GEN}.custom_args)"
